@@ -1002,6 +1002,82 @@ pub fn c11_blackbox(run: &mut Run, roots: &[(Pos, bool, Vec<Mv>)]) {
     for a in res {
         run.acc.merge(a, &[]);
     }
+    // three-man roots on the real binary with slices of 60-250 ms (the search gets 12-20 plies
+    // deep there): every `score mate N`, N > 0, on any line is decided by the exact tables
+    let dtm = crate::oracle::dtm::dtm();
+    let sessions = run.tier.pick(16usize, 96);
+    let per = run.tier.pick(5usize, 16);
+    let res = run_parallel(16, sessions, |sid| {
+        let mut acc = Acc::new();
+        let mut rng = Rng::stream(seed, 0xC11_D000 + sid as u64);
+        let mut s = match Sess::start(&plain, SpawnOpts::default(), false) {
+            Ok(s) => s,
+            Err(e) => {
+                acc.inconclusive.push(format!("session start failed: {}", e));
+                return acc;
+            }
+        };
+        let mut done = 0;
+        let mut tries = 0;
+        while done < per && tries < 4000 {
+            tries += 1;
+            let kind = *rng.pick(&[Kind::Queen, Kind::Rook, Kind::Rook, Kind::Pawn]);
+            let att = if rng.chance(1, 2) { Color::White } else { Color::Black };
+            let mut p = Pos::empty();
+            let (a, b, c) = (rng.below(64) as usize, rng.below(64) as usize, rng.below(64) as usize);
+            if a == b || a == c || b == c || (kind == Kind::Pawn && (c < 8 || c >= 56)) {
+                continue;
+            }
+            p.sq[a] = Some((att, Kind::King));
+            p.sq[b] = Some((att.other(), Kind::King));
+            p.sq[c] = Some((att, kind));
+            p.stm = att;
+            if !is_legal_position(&p) || legal_moves(&p).is_empty() {
+                continue;
+            }
+            let truth = match dtm.mate_in_moves(&p) {
+                Ok(Some(t)) if (4..=6).contains(&t) => t,
+                _ => continue,
+            };
+            done += 1;
+            s.position_fen(&p);
+            let ms = 60 + rng.below(190) as u32;
+            let mut g = s.go(&slice_args(p.stm, ms, &mut rng), WATCHDOG);
+            if g.bestmove.is_none() {
+                acc.inconclusive.push("C11 three-man black box: go not answered".into());
+                return acc;
+            }
+            s.settle(&mut g, WATCHDOG);
+            acc.evaluations += 1;
+            acc.count("blackbox_three_man_gos", 1);
+            let mut claims = 0;
+            for l in &g.info_lines {
+                if let Ok(inf) = parse_info(l, true) {
+                    acc.max("blackbox_three_man_max_depth", inf.depth);
+                    if let Score::Mate(n) = inf.score {
+                        if n > 0 {
+                            claims += 1;
+                            if (n as u32) < truth {
+                                acc.violation(
+                                    format!("C11|false-mate-bb|{}|{}", p.to_fen(), n),
+                                    format!("real binary, '{}' on {}: {:?} claims mate in {} but the shortest forced mate takes {} moves (exact distance-to-mate table)", g.args, p.to_fen(), l, n, truth),
+                                    json!({"kind": "session", "property": "C11", "script": [format!("position fen {}", p.to_fen6(0, 1)), g.args.clone()]}),
+                                );
+                            }
+                        }
+                    }
+                }
+            }
+            acc.count("blackbox_three_man_mate_claims_decided", claims);
+            if claims > 0 && acc.distinct.insert(hash64(&format!("bb3|{}|{}", p.to_fen(), g.args))) {
+                acc.feature("blackbox_three_man_root_with_mate_claims");
+            }
+        }
+        acc
+    });
+    for a in res {
+        run.acc.merge(a, &["blackbox_three_man_max_depth"]);
+    }
 }
 
 // ------------------------------------------------------------------------------------------------
